@@ -65,6 +65,9 @@ def check_c14(root, counters=None):
         elif isinstance(r, R.MarkerRelation):
             if r.engine is not r.target.engine:
                 errs.append(("engine_changes_at_non_transfer_marker", short(r)))
+            if isinstance(r, Rsql.Select) and not isinstance(r.engine, Rsql.Engine):
+                # the SQL engine's own marker on a relation that lives in another engine
+                errs.append(("sql_select_marker_in_foreign_engine", short(r)))
     if counters is not None:
         counters["c14_nodes_walked"] = counters.get("c14_nodes_walked", 0) + n
     return errs
